@@ -10,7 +10,7 @@ qlasskit/qlassfun.py into which the library exec's the source).
 import functools
 import itertools
 
-VARS = "abcde"
+VARS = "abcdefgh"
 
 # ----------------------------------------------------------------------------------------
 # Family B: boolean expressions
@@ -123,6 +123,19 @@ def b_shape_templates():
         for o1, o2, o3 in itertools.product(("and", "or", "^"), repeat=3):
             inner = (" %s " % o1).join(vs[1:k - 1])
             out.append(("(%s %s (%s)) %s %s" % (vs[0], o2, inner, o3, vs[k - 1]), k))
+    # wide n-ary operators (3..6 operands, positive and with one negated operand) alone and nested one or two levels under
+    # binary operators: an n-ary Or/And/Xor reaches the synthesiser only in such positions
+    for k in (3, 4, 5, 6):
+        inner_vars = VARS[2:2 + k]
+        for inner in ("or", "and", "^"):
+            pats = [tuple([0] * k)] + [tuple(1 if j == i else 0 for j in range(k)) for i in (0, k - 1)]
+            for s in pats:
+                chain = (" %s " % inner).join(("(not %s)" % v) if x else v for v, x in zip(inner_vars, s))
+                out.append((chain.replace(inner_vars[0], "a", 1) if False else chain, 2 + k))
+                for o_mid in ("and", "or", "^"):
+                    out.append(("b %s (%s)" % (o_mid, chain), 2 + k))
+                    for o_out in ("or", "and", "^"):
+                        out.append(("a %s (b %s (%s))" % (o_out, o_mid, chain), 2 + k))
     return out
 
 
